@@ -111,6 +111,20 @@ def inline_new_helpers(parsed, ref):
     if not ref:
         return []
     log = []
+    # a tree that has commands the reference tree does not have (new variants of the Request enum) has grown a FEATURE: the public
+    # functions its handler arms call are new API (a counting sibling of the key listing, an info method), not code extracted from an
+    # existing function — they are judged as functions of their own, where the rules for listing-like scans recognise them
+    new_cmds = False
+    try:
+        import json as _json, os as _os
+        ref_adts = _json.load(open(_os.path.join(_os.path.dirname(_os.path.dirname(_os.path.abspath(__file__))), 'ref_adts.json')))
+        refv = {v['name'] for v in ref_adts.get('nundb::bo::Request', {}).get('variants', [])}
+        for d in parsed:
+            a = d.get('adts', {}).get('nundb::bo::Request')
+            if a and refv and {v['name'] for v in a.get('variants', [])} - refv:
+                new_cmds = True
+    except (OSError, ValueError, KeyError):
+        pass
     while len(log) < 24:
         bodies = {}
         for d in parsed:
@@ -137,6 +151,8 @@ def inline_new_helpers(parsed, ref):
             fams = {_family(c, bodies) for c, _ in ss}
             if len(fams) != 1 or _family(hid, bodies) in fams:
                 continue          # several users (a real shared function), or recursion
+            if new_cmds and h.get('public'):
+                continue          # API of a new command (see above)
             # the helper must not call itself
             if any(_callee_of(bl['t']) == hid for bl in h['blocks'] if bl['t']['k'] == 'call'):
                 continue
